@@ -56,6 +56,8 @@ def requested_set_callers(run, prog, scan, rule):
 
 
 def check(run, prog, tier):
+    from . import model as _model
+    _model.audit(run, prog, 'C14')
     run.explanation = (
         "Order of Subscribe and StopSubscribe on the wire equals the order of the calls iff all three public "
         "operations defer their transmission by the same number of event-loop iterations (FIFO ready queue): the "
